@@ -1,4 +1,5 @@
 import CorsVerif.Proofs.RoundTrip
+import CorsVerif.Proofs.RenderIdem
 /-
   The origins part of C06: the patterns that `Tree.Elems` renders are among the configured ones
   and build an equivalent tree.
@@ -157,11 +158,51 @@ theorem ok_parses {ext : Ext} {cred pnaAny tolI tolP : Bool} {raws : List Bytes}
   | error r => rw [hp] at hc; simp at hc
   | ok p => exact ⟨p, rfl⟩
 
+/-- Whether a listed string raises an error depends on the pattern it parses to, not on its spelling. -/
+theorem rawErrs_nil_congr (ext : Ext) (cred pnaAny tolI tolP : Bool) {raw raw' : Bytes} {p : Pattern}
+    (h1 : raw ≠ Validate.star) (h2 : raw' ≠ Validate.star)
+    (hp : Pat.parsePattern ext raw = .ok p) (hp' : Pat.parsePattern ext raw' = .ok p)
+    (h : rawErrs ext cred pnaAny tolI tolP raw = []) : rawErrs ext cred pnaAny tolI tolP raw' = [] := by
+  unfold rawErrs at h ⊢
+  have e1 : (raw == Validate.star) = false := by simpa using h1
+  have e2 : (raw' == Validate.star) = false := by simpa using h2
+  rw [e1, hp] at h
+  rw [e2, hp']
+  simp only [Bool.false_eq_true, if_false] at h ⊢
+  cases hc1 : (Pat.isDeemedInsecure p && !tolI) <;> cases cred <;> cases pnaAny <;>
+    cases hc2 : (p.kind == .subdomains && !tolP && Pat.hostIsEffectiveTLD ext p) <;> simp_all
+
+/-- What `Tree.Elems` shows for a tree built from acceptable strings: every element is the rendering of a
+stored entry, is not `*`, parses to one of the listed patterns (the one whose entry it renders) and is as
+acceptable as the string that pattern was listed as. -/
+theorem elems_facts (ext : Ext) (hext : ∀ h info, ext.ip6 h = some info → h.head? ≠ some 42)
+    (cred pnaAny tolI tolP : Bool) (raws : List Bytes) (hok : OriginsOK ext cred pnaAny tolI tolP raws) :
+    ∀ e ∈ entries ((parsedPatterns ext raws).foldl Tree.insert Node.empty),
+      ∃ p ∈ parsedPatterns ext raws, e = entryOf p ∧ renderEntry e.2.1 e.1.reverse e.2.2 ≠ Validate.star ∧
+        Pat.parsePattern ext (renderEntry e.2.1 e.1.reverse e.2.2) = .ok p ∧
+        rawErrs ext cred pnaAny tolI tolP (renderEntry e.2.1 e.1.reverse e.2.2) = [] := by
+  intro e he
+  rcases fold_entries _ _ e he with h | ⟨p, hp, rfl⟩
+  · rw [empty_entries] at h; cases h
+  · obtain ⟨raw, hr, hs, hpp⟩ := mem_parsed.mp hp
+    have hwf := C01_parsed ext hext raw p hpp
+    have hre : Pat.parsePattern ext (renderOf p) = .ok p := RenderIdem.parse_render ext hwf hpp
+    have hns : renderOf p ≠ Validate.star := by
+      intro h0
+      rw [h0] at hre
+      have : Pat.parsePattern ext Validate.star = .error .prohibited := by
+        unfold Pat.parsePattern
+        rw [if_pos (by decide)]
+      rw [this] at hre
+      cases hre
+    exact ⟨p, hp, rfl, hns, hre, rawErrs_nil_congr ext cred pnaAny tolI tolP hs hns hpp hre (hok.clean raw hr)⟩
+
 /-- **The origins part of the round trip.** -/
 theorem origins_roundtrip (ext : Ext) (hext : ∀ h info, ext.ip6 h = some info → h.head? ≠ some 42)
-    (cred pnaAny tolI tolP : Bool) (raws : List Bytes) (hok : OriginsOK ext cred pnaAny tolI tolP raws)
-    (hbr : ∀ raw ∈ raws, ∀ p, Pat.parsePattern ext raw = .ok p → (91 : Nat) ∈ raw → (58 : Nat) ∈ p.value) :
-    (∀ x ∈ Tree.elems ((parsedPatterns ext raws).foldl Tree.insert Node.empty), x ∈ raws) ∧
+    (cred pnaAny tolI tolP : Bool) (raws : List Bytes) (hok : OriginsOK ext cred pnaAny tolI tolP raws) :
+    (∀ x ∈ Tree.elems ((parsedPatterns ext raws).foldl Tree.insert Node.empty),
+      x ≠ Validate.star ∧ rawErrs ext cred pnaAny tolI tolP x = [] ∧
+      ∃ p ∈ parsedPatterns ext raws, Pat.parsePattern ext x = .ok p) ∧
     Tree.elems ((parsedPatterns ext raws).foldl Tree.insert Node.empty) ≠ [] ∧
     ∀ o : Origin, o.port ≤ 65535 →
       Tree.contains ((parsedPatterns ext (Tree.elems ((parsedPatterns ext raws).foldl Tree.insert Node.empty))).foldl Tree.insert Node.empty) o =
@@ -174,21 +215,14 @@ theorem origins_roundtrip (ext : Ext) (hext : ∀ h info, ext.ip6 h = some info 
   have hsuf : ((parsedPatterns ext raws).foldl Tree.insert Node.empty).suf = [] := by
     rw [fold_suf]; rfl
   have hinv := C01_invariant (parsedPatterns ext raws) hwf
-  -- every rendered element is one of the listed strings, and parses to the pattern whose entry it renders
-  have hback : ∀ e ∈ entries ((parsedPatterns ext raws).foldl Tree.insert Node.empty),
-      ∃ p ∈ parsedPatterns ext raws, e = entryOf p ∧
-        ∃ raw ∈ raws, raw ≠ Validate.star ∧ Pat.parsePattern ext raw = .ok p ∧ renderEntry e.2.1 e.1.reverse e.2.2 = raw := by
-    intro e he
-    rcases fold_entries _ _ e he with h | ⟨p, hp, rfl⟩
-    · rw [empty_entries] at h; cases h
-    · obtain ⟨raw, hr, hs, hpp⟩ := mem_parsed.mp hp
-      refine ⟨p, hp, rfl, raw, hr, hs, hpp, ?_⟩
-      exact render_eq_raw (parsePattern_inv hpp) (hwf p hp) (hbr raw hr p hpp)
-  have hsub : ∀ x ∈ Tree.elems ((parsedPatterns ext raws).foldl Tree.insert Node.empty), x ∈ raws := by
+  have hback := elems_facts ext hext cred pnaAny tolI tolP raws hok
+  have hsub : ∀ x ∈ Tree.elems ((parsedPatterns ext raws).foldl Tree.insert Node.empty),
+      x ≠ Validate.star ∧ rawErrs ext cred pnaAny tolI tolP x = [] ∧
+      ∃ p ∈ parsedPatterns ext raws, Pat.parsePattern ext x = .ok p := by
     intro x hx
     obtain ⟨e, he, rfl⟩ := (tree_elems_mem _ hsuf x).mp hx
-    obtain ⟨_, _, _, raw, hr, _, _, hrender⟩ := hback e he
-    rw [hrender]; exact hr
+    obtain ⟨p, hp, _, hns, hpp, hcl⟩ := hback e he
+    exact ⟨hns, hcl, p, hp, hpp⟩
   refine ⟨hsub, ?_, ?_⟩
   · -- not empty: some listed pattern denotes its witness, so the tree has an entry
     obtain ⟨raw0, hraw0⟩ : ∃ raw0, raw0 ∈ raws := by
@@ -217,8 +251,11 @@ theorem origins_roundtrip (ext : Ext) (hext : ∀ h info, ext.ip6 h = some info 
     simp only [List.any_eq_true]
     constructor
     · rintro ⟨p, hp, hd⟩
-      obtain ⟨raw, hr, hs, hpp⟩ := mem_parsed.mp hp
-      exact ⟨p, mem_parsed.mpr ⟨raw, hsub raw hr, hs, hpp⟩, hd⟩
+      obtain ⟨x, hx, _, hpp⟩ := mem_parsed.mp hp
+      obtain ⟨_, _, q, hq, hqq⟩ := hsub x hx
+      rw [hpp] at hqq
+      cases hqq
+      exact ⟨p, hq, hd⟩
     · rintro ⟨p, hp, hd⟩
       -- the tree contains o, so some stored entry covers it; that entry is rendered and parses back
       have hcont : Tree.contains ((parsedPatterns ext raws).foldl Tree.insert Node.empty) o = true := by
@@ -227,11 +264,10 @@ theorem origins_roundtrip (ext : Ext) (hext : ∀ h info, ext.ip6 h = some info 
       unfold Tree.contains at hcont
       rw [contains_eq_entries _ hinv _ _ _ ⟨by omega, by omega⟩] at hcont
       obtain ⟨e, he, hcov⟩ := List.any_eq_true.mp hcont
-      obtain ⟨q, hq, rfl, raw, hr, hs, hpp, hrender⟩ := hback e he
-      refine ⟨q, mem_parsed.mpr ⟨raw, ?_, hs, hpp⟩, ?_⟩
-      · rw [← hrender]
-        exact (tree_elems_mem _ hsuf _).mpr ⟨entryOf q, he, rfl⟩
-      · rw [ecov_entryOf q (hwf q hq).port o] at hcov
+      obtain ⟨q, hq, heq, hns, hpp, _⟩ := hback e he
+      refine ⟨q, mem_parsed.mpr ⟨renderEntry e.2.1 e.1.reverse e.2.2, ?_, hns, hpp⟩, ?_⟩
+      · exact (tree_elems_mem _ hsuf _).mpr ⟨e, he, rfl⟩
+      · rw [heq, ecov_entryOf q (hwf q hq).port o] at hcov
         rw [← treeCovers_eq_denotes q (hwf q hq) o]
         exact hcov
 
